@@ -1,7 +1,8 @@
 """C18 — handshake: greeting accepted iff valid, password sent before anything else (DESIGN §4/C18)."""
 from .. import charset, tables
 from ..callgraph import norm
-from ..cfg import Cfg, reach
+from ..cfg import Cfg, VariantReach, reach
+from ..inline import inlined, same_impl_helpers
 from ..common import body_by_name, callee_names, const_value_of, family, last_named_field, logic_body, switch_atom
 from ..facts import callee, const_str, op_const, op_local, op_place
 from ..flow import Flow, identity_through
@@ -46,8 +47,20 @@ def order_rule(rep, prog, cfg):
     if b is None:
         rep.fail("C18.anchor", cfg + "/do_connect", "client/mod.rs", "no body of do_connect spawns the connection loop")
         return
+    # the exchange may live in private (async) helpers of the client module: analyse with them spliced in (A12); edges that
+    # are infeasible for the Result/Option variant a value is known to hold are pruned (A13)
+    b = inlined(prog, b, same_impl_helpers(b))
+    if b.raw.get("inlined"):
+        rep.sample({"C18 helpers spliced into the handshake (%s)" % cfg: sorted(set(b.raw["inlined"]))})
     g = Cfg(b)
     fl = Flow(b)
+    vr = VariantReach(b)
+
+    def reach(_succs, starts, avoid=(), avoid_edges=()):
+        out = set()
+        for st in starts:
+            out |= vr.blocks(st, None, avoid, avoid_edges)
+        return out
     spawns = [bb for bb, t in b.calls() if SPAWN in callee_names(t)]
     sends = [bb for bb, t in b.calls() if any(n in WRITES for n in callee_names(t))]
     recvs = [bb for bb, t in b.calls() if AC + "receive" in callee_names(t)]
